@@ -63,6 +63,8 @@ pub fn panic_class(msg: &str) -> &'static str {
 }
 
 thread_local! {
+    /// `dump=1`: (active, generator state, limbs of the last ZNX plaintext operand built)
+    static DUMP_PT: std::cell::RefCell<(bool, u64, String)> = std::cell::RefCell::new((false, 0, String::new()));
     static LAST_PANIC: std::cell::RefCell<String> = std::cell::RefCell::new(String::new());
 }
 
@@ -278,6 +280,24 @@ macro_rules! backend_impl {
                 ctx.encoder.encode_reim(&mut rnx, &to_fv(&vals.0), &to_fv(&vals.1))?;
                 let mut z = CKKSPlaintextVecZnx::alloc(Degree(ctx.n as u32), Base2K(base2k as u32), meta);
                 rnx.to_znx(&mut z)?;
+                // `dump=1`: the data tie compares limbs; the plaintext limbs are replaced by pseudo-random balanced digits
+                // and handed to the model with the answer
+                DUMP_PT.with(|d| {
+                    let mut d = d.borrow_mut();
+                    if d.0 && base2k >= 1 && base2k < 63 {
+                        let half: i64 = 1i64 << (base2k - 1);
+                        let size = z.data().size();
+                        let mut v: Vec<String> = Vec::new();
+                        for j in 0..size {
+                            for x in z.data_mut().at_mut(0, j).iter_mut() {
+                                d.1 = d.1.wrapping_mul(6364136223846793005).wrapping_add(1442695040888963407);
+                                *x = ((d.1 >> 11) as i64 & ((1i64 << base2k) - 1)) - half;
+                                v.push(x.to_string());
+                            }
+                        }
+                        d.2 = if v.is_empty() { "-".to_string() } else { v.join(".") };
+                    }
+                });
                 Ok(z)
             }
             fn pt_rnx(ctx: &Ctx, vals: &(Vec<f64>, Vec<f64>)) -> CKKSPlaintextVecRnx<F> {
@@ -1114,6 +1134,9 @@ macro_rules! backend_impl {
                         fill_ct(c, base2k, &mut st);
                     }
                     out.push(format!("init#{}", pool.iter().map(dump_ct).collect::<Vec<_>>().join("/")));
+                    DUMP_PT.with(|d| *d.borrow_mut() = (true, st ^ 0x5DEECE66D, String::new()));
+                } else {
+                    DUMP_PT.with(|d| d.borrow_mut().0 = false);
                 }
                 let dump_of = |pool: &Vec<Ct>, f: &[&str]| -> String {
                     if !dump {
@@ -1123,7 +1146,9 @@ macro_rules! backend_impl {
                         Some(d) if d < pool.len() => dump_ct(&pool[d]),
                         _ => "-".to_string(),
                     };
-                    if f[0] == "align" { format!("#{}/{}", slot(1), slot(2)) } else { format!("#{}", slot(1)) }
+                    let pt = DUMP_PT.with(|d| std::mem::take(&mut d.borrow_mut().2));
+                    let pt = if pt.is_empty() { String::new() } else { format!("%{pt}") };
+                    if f[0] == "align" { format!("#{}/{}{}", slot(1), slot(2), pt) } else { format!("#{}{}", slot(1), pt) }
                 };
                 for (i, op) in ops.iter().enumerate() {
                     let f: Vec<&str> = op.split(',').collect();
